@@ -93,4 +93,28 @@ def contains (d : Caps) (key : Str) : Bool :=
 /-- `list(caps)` / `len(caps)`. -/
 def keys (d : Caps) : List Str := d.map Prod.fst
 
+/-- `Capabilities.remove(uri)`: `if uri in self._dict: del self._dict[uri]`. -/
+def remove (d : Caps) (uri : Str) : Caps := d.filter (fun p => p.1 != uri)
+
+/-! ### Histories: a capability object that is added to and removed from over its life -/
+
+inductive Op
+  | add (uri : Str)
+  | remove (uri : Str)
+deriving DecidableEq, Repr
+
+def step (d : Caps) : Op → Caps
+  | .add u => add d u
+  | .remove u => remove d u
+
+def run (d : Caps) (ops : List Op) : Caps := ops.foldl step d
+
+/-- The abstract object the documentation describes: an ordered set of URIs. -/
+def absStep (l : List Str) : Op → List Str
+  | .add u => if u ∈ l then l else l ++ [u]
+  | .remove u => l.filter (fun k => k != u)
+
+/-- The capability object that holds exactly the URIs `l` (each parsed from its own text). -/
+def ofKeys (l : List Str) : Caps := l.map fun u => (u, fromUri u)
+
 end NcVerif.Caps
